@@ -203,8 +203,8 @@ theorem parseNumber_no_panic (c : Cfg) (h : ValidContiguous c) (o : POpts) (isPa
       ∀ n count, parseNumber c isPartial o b neg = .ok (n, count) → count ≤ b.slc.length := by
   have cx := h.ctx
   have hs := LexVerif.Proof.PNDebug.parseNumber_safe cx
-    (LexVerif.Proof.PNDebug.peek_triv c cx .integer (Or.inl h.contiguous))
-    (LexVerif.Proof.PNDebug.peek_triv c cx .fraction (Or.inl h.contiguous)) isPartial o
+    (Or.inl (LexVerif.Proof.PNDebug.peek_triv c cx .integer (Or.inl h.contiguous)))
+    (Or.inl (LexVerif.Proof.PNDebug.peek_triv c cx .fraction (Or.inl h.contiguous))) isPartial o
     (LexVerif.Proof.PNDebug.OCtx.of_bc c o h.contiguous) b neg hb
   exact ⟨⟨hs.not_panic, hs.not_fault⟩, fun n count he => hs.of_eq_ok he⟩
 
@@ -220,8 +220,8 @@ theorem parseFloatSyntax_no_panic (c : Cfg) (h : ValidContiguous c) (o : POpts) 
     NoPanicNoFault (parseFloatSyntax c o isPartial input) := by
   have cx := h.ctx
   have hs := LexVerif.Proof.PNDebug.parseFloatSyntax_safe cx
-    (LexVerif.Proof.PNDebug.peek_triv c cx .integer (Or.inl h.contiguous))
-    (LexVerif.Proof.PNDebug.peek_triv c cx .fraction (Or.inl h.contiguous)) o
+    (Or.inl (LexVerif.Proof.PNDebug.peek_triv c cx .integer (Or.inl h.contiguous)))
+    (Or.inl (LexVerif.Proof.PNDebug.peek_triv c cx .fraction (Or.inl h.contiguous))) o
     (LexVerif.Proof.PNDebug.OCtx.of_bc c o h.contiguous) isPartial input
   exact ⟨hs.not_panic, hs.not_fault⟩
 
@@ -288,8 +288,8 @@ theorem parseNumber_no_panic_intfrac (c : Cfg) (o : POpts) (h : ValidIntFracCont
       ∀ n count, parseNumber c isPartial o b neg = .ok (n, count) → count ≤ b.slc.length := by
   have cx := h.ctx
   have hs := LexVerif.Proof.PNDebug.parseNumber_safe cx
-    (LexVerif.Proof.PNDebug.peek_triv c cx .integer (Or.inr h.intContig))
-    (LexVerif.Proof.PNDebug.peek_triv c cx .fraction (Or.inr h.fracContig)) isPartial o h.octx b neg hb
+    (Or.inl (LexVerif.Proof.PNDebug.peek_triv c cx .integer (Or.inr h.intContig)))
+    (Or.inl (LexVerif.Proof.PNDebug.peek_triv c cx .fraction (Or.inr h.fracContig))) isPartial o h.octx b neg hb
   exact ⟨⟨hs.not_panic, hs.not_fault⟩, fun n count he => hs.of_eq_ok he⟩
 
 /-- C10, debug-assertion build, `parse_number`, class "integer and fraction iterators contiguous" -/
@@ -303,8 +303,8 @@ theorem parseFloatSyntax_no_panic_intfrac (c : Cfg) (o : POpts) (h : ValidIntFra
     (input : List Nat) : NoPanicNoFault (parseFloatSyntax c o isPartial input) := by
   have cx := h.ctx
   have hs := LexVerif.Proof.PNDebug.parseFloatSyntax_safe cx
-    (LexVerif.Proof.PNDebug.peek_triv c cx .integer (Or.inr h.intContig))
-    (LexVerif.Proof.PNDebug.peek_triv c cx .fraction (Or.inr h.fracContig)) o h.octx isPartial input
+    (Or.inl (LexVerif.Proof.PNDebug.peek_triv c cx .integer (Or.inr h.intContig)))
+    (Or.inl (LexVerif.Proof.PNDebug.peek_triv c cx .fraction (Or.inr h.fracContig))) o h.octx isPartial input
   exact ⟨hs.not_panic, hs.not_fault⟩
 
 /-- C10, debug-assertion build, entry points, class "integer and fraction iterators contiguous" -/
@@ -321,6 +321,89 @@ example : ValidIntFracContiguous ⟨fFormat, ⟨0xa0a0a000000005f000009240000000
 /-- … and a separator in the exponent is really skipped there: `1.5e1_0` -/
 example : (parseFloatSyntax ⟨fFormat, ⟨0xa0a0a000000005f000009240000000c⟩, true⟩ {} false
     [49, 46, 53, 101, 49, 95, 48]).toBool = true := by decide +kernel
+
+/-! ## Part 4 — integer / fraction iterators contiguous **or I+L+T+C**
+
+Of the 15 `peek` variants (`noskip` + 14 predicates) two are covered for the integer and fraction components:
+`noskip` (no flag) and `iltc` (all four flags: every run of separators is skipped unconditionally, independent
+of the neighbouring bytes, so the first pass and the re-scan of the stored slice agree and `peek` never returns
+the separator). The exponent component may use **any** of the 15; the special iterator too. The other 13
+predicates (`i l t il it lt ilt ic lc tc ilc itc ltc`) on the integer / fraction component are not covered
+(`itc` is refuted by the witnesses of Part 1; the rest is the `def` below). -/
+
+open LexVerif.Proof.PNDebug (matchesB) in
+structure ValidIltc (c : Cfg) (o : POpts) : Prop where
+  formatOk : (formatError c.feats c.fmt).isNone = true
+  radixOk : checkRadix c.feats c.fmt = true
+  featsOk : c.feats.radix = true → c.feats.powerOfTwo = true
+  optsOk : isValidOptionsPunctuation c.feats c.fmt o.exp o.dp = true
+  intFlags : c.iterContiguous .integer = true ∨ c.sepFlags .integer = ⟨true, true, true, true⟩
+  fracFlags : c.iterContiguous .fraction = true ∨ c.sepFlags .fraction = ⟨true, true, true, true⟩
+  expCase : c.bytesContiguous = true ∨
+    matchesB c.fmt.digitSeparator o.exp (c.caseSensitiveExponent && c.feats.format) = false
+  suffixCase : c.baseSuffix ≠ 0 → c.bytesContiguous = true ∨
+    matchesB c.fmt.digitSeparator c.baseSuffix c.caseSensitiveBaseSuffix = false
+  prefixCase : c.basePrefix ≠ 0 → c.iterContiguous .integer = true ∨
+    matchesB c.fmt.digitSeparator c.basePrefix c.caseSensitiveBasePrefix = false
+
+theorem ValidIltc.ctx {c : Cfg} {o : POpts} (h : ValidIltc c o) : LexVerif.Proof.PNDebug.Ctx c :=
+  LexVerif.Proof.PNDebug.Ctx.of_valid_gen c h.formatOk h.radixOk h.featsOk h.prefixCase h.suffixCase
+
+theorem ValidIltc.octx {c : Cfg} {o : POpts} (h : ValidIltc c o) : LexVerif.Proof.PNDebug.OCtx c o := by
+  refine ⟨?_, h.expCase⟩
+  cases hf : c.feats.format
+  · exact Or.inl (h.ctx.nfbc hf)
+  · right
+    have := h.optsOk
+    unfold isValidOptionsPunctuation at this
+    intro hdp
+    simp [hf, hdp] at this
+
+theorem parseNumber_no_panic_iltc (c : Cfg) (o : POpts) (h : ValidIltc c o) (isPartial neg : Bool)
+    (b : Bytes) (hb : b.index < b.slc.length) :
+    NoPanicNoFault (parseNumber c isPartial o b neg) ∧
+      ∀ n count, parseNumber c isPartial o b neg = .ok (n, count) → count ≤ b.slc.length := by
+  have cx := h.ctx
+  have hs := LexVerif.Proof.PNDebug.parseNumber_safe cx
+    (LexVerif.Proof.PNDebug.good_of_flags cx .integer (Or.inl rfl) h.intFlags)
+    (LexVerif.Proof.PNDebug.good_of_flags cx .fraction (Or.inr rfl) h.fracFlags) isPartial o h.octx b neg hb
+  exact ⟨⟨hs.not_panic, hs.not_fault⟩, fun n count he => hs.of_eq_ok he⟩
+
+/-- C10, debug-assertion build, `parse_number`, integer / fraction iterators `noskip` or `iltc` -/
+theorem parseNumber_no_panic_debug_iltc (c : Cfg) (o : POpts) (h : ValidIltc c o) (_hd : c.debug = true)
+    (isPartial neg : Bool) (b : Bytes) (hb : b.index < b.slc.length) :
+    NoPanicNoFault (parseNumber c isPartial o b neg) ∧
+      ∀ n count, parseNumber c isPartial o b neg = .ok (n, count) → count ≤ b.slc.length :=
+  parseNumber_no_panic_iltc c o h isPartial neg b hb
+
+theorem parseFloatSyntax_no_panic_iltc (c : Cfg) (o : POpts) (h : ValidIltc c o) (isPartial : Bool)
+    (input : List Nat) : NoPanicNoFault (parseFloatSyntax c o isPartial input) := by
+  have cx := h.ctx
+  have hs := LexVerif.Proof.PNDebug.parseFloatSyntax_safe cx
+    (LexVerif.Proof.PNDebug.good_of_flags cx .integer (Or.inl rfl) h.intFlags)
+    (LexVerif.Proof.PNDebug.good_of_flags cx .fraction (Or.inr rfl) h.fracFlags) o h.octx isPartial input
+  exact ⟨hs.not_panic, hs.not_fault⟩
+
+/-- C10, debug-assertion build, entry points, integer / fraction iterators `noskip` or `iltc` -/
+theorem parseFloatSyntax_no_panic_debug_iltc (c : Cfg) (o : POpts) (h : ValidIltc c o) (_hd : c.debug = true)
+    (isPartial : Bool) (input : List Nat) : NoPanicNoFault (parseFloatSyntax c o isPartial input) :=
+  parseFloatSyntax_no_panic_iltc c o h isPartial input
+
+/-- non-vacuity: `sep_iltc` (`_`, all flags in all components), `format`, debug assertions on -/
+example : ValidIltc ⟨fFormat, ⟨0xa0a0a000000005f00000fff0000000c⟩, true⟩ {} :=
+  ⟨by decide +kernel, by decide +kernel, by decide, by decide +kernel, Or.inr (by decide +kernel),
+   Or.inr (by decide +kernel), Or.inr (by decide +kernel), fun h => absurd (by decide +kernel) h,
+   fun h => absurd (by decide +kernel) h⟩
+
+/-- non-vacuity: `prefix_d_sep_iltc` with `radix+format` (base prefix `d`, separators everywhere) -/
+example : ValidIltc ⟨fRadixFormat, ⟨0xa0a0a006400005f00000fff0000000c⟩, true⟩ {} :=
+  ⟨by decide +kernel, by decide +kernel, by decide, by decide +kernel, Or.inr (by decide +kernel),
+   Or.inr (by decide +kernel), Or.inr (by decide +kernel), fun h => absurd (by decide +kernel) h,
+   fun _ => Or.inr (by decide +kernel)⟩
+
+/-- … the many-digits re-scan over a slice with separators returns `ok`: `1_2._3_4567890123456789012_` -/
+example : (parseFloatSyntax ⟨fFormat, ⟨0xa0a0a000000005f00000fff0000000c⟩, true⟩ {} false
+    ([49, 95, 50, 46, 95, 51, 95] ++ inFrac.drop 6 ++ [48, 49, 50, 95])).toBool = true := by decide +kernel
 
 /-! ## Full statement (target, not proved): every valid format outside the I+T+C re-scan class
 
